@@ -32,6 +32,9 @@ type Result struct {
 	Err      bool
 	ErrText  string
 	HasValue bool // a usable value was returned (non-nil pointer / non-empty slice); value-typed results are exempt
+	// Inconsistent is set by an entry point that makes the same call on a fresh receiver and on one that held another
+	// value before, when the two outcomes differ: the outcome then depends on more than the input.
+	Inconsistent string
 }
 
 func (r Result) key() string { return fmt.Sprintf("%v|%v|%s", r.Err, r.HasValue, r.Summary) }
@@ -90,7 +93,7 @@ var EntryPoints = []EntryPoint{
 		if err == nil {
 			s = fmt.Sprintf("%+v|%s", v, v.String())
 		}
-		return Result{s, e, t, false}
+		return Result{s, e, t, false, ""}
 	}},
 	{"dependency.ParseArch", func(in string) Result {
 		a, err := dependency.ParseArch(in)
@@ -99,12 +102,59 @@ var EntryPoints = []EntryPoint{
 		if a != nil {
 			s = fmt.Sprintf("%+v|%s", *a, a.String())
 		}
-		return Result{s, e, t, a != nil}
+		return Result{s, e, t, a != nil, ""}
+	}},
+	// the receiver forms of the same parsers (what control.Unmarshal calls for typed members): decoding into a fresh value
+	// and into one that was decoded into before are the same call on the same input
+	{"dependency.Arch.UnmarshalControl", func(in string) Result {
+		var fresh, reused dependency.Arch
+		reused.UnmarshalControl("musl-linux-armhf")
+		err := fresh.UnmarshalControl(in)
+		err2 := reused.UnmarshalControl(in)
+		e, t := errRes(err)
+		res := Result{"", e, t, false, ""}
+		if err == nil {
+			res.Summary = fmt.Sprintf("%+v|%s", fresh, fresh.String())
+		}
+		if (err == nil) != (err2 == nil) || (err == nil && fresh != reused) {
+			res.Inconsistent = fmt.Sprintf("fresh: %+v %v; after musl-linux-armhf: %+v %v", fresh, err, reused, err2)
+		}
+		return res
+	}},
+	{"version.Version.UnmarshalControl", func(in string) Result {
+		var fresh, reused version.Version
+		reused.UnmarshalControl("7:7.7-7")
+		err := fresh.UnmarshalControl(in)
+		err2 := reused.UnmarshalControl(in)
+		e, t := errRes(err)
+		res := Result{"", e, t, false, ""}
+		if err == nil {
+			res.Summary = fmt.Sprintf("%+v|%s", fresh, fresh.String())
+		}
+		if (err == nil) != (err2 == nil) || (err == nil && fresh != reused) {
+			res.Inconsistent = fmt.Sprintf("fresh: %+v %v; after 7:7.7-7: %+v %v", fresh, err, reused, err2)
+		}
+		return res
+	}},
+	{"dependency.Dependency.UnmarshalControl", func(in string) Result {
+		var fresh, reused dependency.Dependency
+		reused.UnmarshalControl("x:any (>= 7) [!armhf] <y> | z, ${w}")
+		err := fresh.UnmarshalControl(in)
+		err2 := reused.UnmarshalControl(in)
+		e, t := errRes(err)
+		res := Result{"", e, t, false, ""}
+		if err == nil {
+			res.Summary = gen.CanonDep(&fresh) + "|" + fresh.String()
+		}
+		if (err == nil) != (err2 == nil) || (err == nil && gen.CanonDep(&fresh) != gen.CanonDep(&reused)) {
+			res.Inconsistent = fmt.Sprintf("fresh: %s %v; after another field: %s %v", gen.CanonDep(&fresh), err, gen.CanonDep(&reused), err2)
+		}
+		return res
 	}},
 	{"dependency.ParseArchitectures", func(in string) Result {
 		l, err := dependency.ParseArchitectures(in)
 		e, t := errRes(err)
-		return Result{fmt.Sprintf("%+v", l), e, t, len(l) > 0}
+		return Result{fmt.Sprintf("%+v", l), e, t, len(l) > 0, ""}
 	}},
 	{"dependency.Parse", func(in string) Result {
 		d, err := dependency.Parse(in)
@@ -114,13 +164,13 @@ var EntryPoints = []EntryPoint{
 			// the accessors and the renderer must be total on whatever the parser returns
 			s = gen.CanonDep(d) + "|" + d.String() + fmt.Sprintf("|%d %d %d", len(d.GetPossibilities(amd64)), len(d.GetAllPossibilities()), len(d.GetSubstvars()))
 		}
-		return Result{s, e, t, d != nil}
+		return Result{s, e, t, d != nil, ""}
 	}},
 	{"control.ParagraphReader", func(in string) Result {
 		pr, err := control.NewParagraphReader(rd(in), nil)
 		if err != nil {
 			e, t := errRes(err)
-			return Result{"", e, t, pr != nil}
+			return Result{"", e, t, pr != nil, ""}
 		}
 		ps, err := pr.All()
 		e, t := errRes(err)
@@ -128,26 +178,26 @@ var EntryPoints = []EntryPoint{
 		for i := range ps {
 			ps[i].WriteTo(&out)
 		}
-		return Result{canonParas(ps) + "|" + out.String(), e, t, len(ps) > 0}
+		return Result{canonParas(ps) + "|" + out.String(), e, t, len(ps) > 0, ""}
 	}},
 	{"control.ParagraphReader.Next", func(in string) Result {
 		pr, err := control.NewParagraphReader(rd(in), nil)
 		if err != nil {
 			e, t := errRes(err)
-			return Result{"", e, t, false}
+			return Result{"", e, t, false, ""}
 		}
 		var ps []control.Paragraph
 		for i := 0; i < 1000000; i++ {
 			p, err := pr.Next()
 			if err == io.EOF {
-				return Result{canonParas(ps), false, "", false}
+				return Result{canonParas(ps), false, "", false, ""}
 			}
 			if err != nil {
-				return Result{canonParas(ps), true, err.Error(), p != nil}
+				return Result{canonParas(ps), true, err.Error(), p != nil, ""}
 			}
 			ps = append(ps, *p)
 		}
-		return Result{"runaway", true, "more than 1000000 paragraphs", true}
+		return Result{"runaway", true, "more than 1000000 paragraphs", true, ""}
 	}},
 	{"control.ParseDsc", func(in string) Result {
 		d, err := control.ParseDsc(bufio.NewReader(rd(in)), "/x/y.dsc")
@@ -156,7 +206,7 @@ var EntryPoints = []EntryPoint{
 		if d != nil {
 			s = fmt.Sprintf("%+v", *d)
 		}
-		return Result{s, e, t, d != nil}
+		return Result{s, e, t, d != nil, ""}
 	}},
 	{"control.ParseChanges", func(in string) Result {
 		c, err := control.ParseChanges(bufio.NewReader(rd(in)), "/x/y.changes")
@@ -165,7 +215,7 @@ var EntryPoints = []EntryPoint{
 		if c != nil {
 			s = fmt.Sprintf("%+v", *c)
 		}
-		return Result{s, e, t, c != nil}
+		return Result{s, e, t, c != nil, ""}
 	}},
 	{"control.ParseControl", func(in string) Result {
 		c, err := control.ParseControl(bufio.NewReader(rd(in)), "/x/control")
@@ -174,23 +224,23 @@ var EntryPoints = []EntryPoint{
 		if c != nil {
 			s = fmt.Sprintf("%+v", *c)
 		}
-		return Result{s, e, t, c != nil}
+		return Result{s, e, t, c != nil, ""}
 	}},
 	{"control.ParseBinaryIndex", func(in string) Result {
 		l, err := control.ParseBinaryIndex(bufio.NewReader(rd(in)))
 		e, t := errRes(err)
-		return Result{fmt.Sprintf("%+v", l), e, t, len(l) > 0}
+		return Result{fmt.Sprintf("%+v", l), e, t, len(l) > 0, ""}
 	}},
 	{"control.ParseSourceIndex", func(in string) Result {
 		l, err := control.ParseSourceIndex(bufio.NewReader(rd(in)))
 		e, t := errRes(err)
-		return Result{fmt.Sprintf("%+v", l), e, t, len(l) > 0}
+		return Result{fmt.Sprintf("%+v", l), e, t, len(l) > 0, ""}
 	}},
 	{"deb.Control", func(in string) Result {
 		var c deb.Control
 		err := control.Unmarshal(&c, rd(in))
 		e, t := errRes(err)
-		return Result{fmt.Sprintf("%+v", c), e, t, false}
+		return Result{fmt.Sprintf("%+v", c), e, t, false, ""}
 	}},
 	{"control.Unmarshal(user document)", func(in string) Result {
 		// a caller's own typed document: members of every shape a struct may have next to the decoded ones - pointers to its
@@ -201,12 +251,12 @@ var EntryPoints = []EntryPoint{
 		var l []userDoc
 		err2 := control.Unmarshal(&l, rd(in))
 		e2, t2 := errRes(err2)
-		return Result{fmt.Sprintf("%+v|%v|%d %v %s", n.flat(), n.Parent == nil && n.Next == nil, len(l), e2, t2), e, t, false}
+		return Result{fmt.Sprintf("%+v|%v|%d %v %s", n.flat(), n.Parent == nil && n.Next == nil, len(l), e2, t2), e, t, false, ""}
 	}},
 	{"changelog.Parse", func(in string) Result {
 		l, err := changelog.Parse(rd(in))
 		e, t := errRes(err)
-		return Result{fmt.Sprintf("%+v", l), e, t, len(l) > 0}
+		return Result{fmt.Sprintf("%+v", l), e, t, len(l) > 0, ""}
 	}},
 	{"changelog.ParseOne", func(in string) Result {
 		c, err := changelog.ParseOne(bufio.NewReader(rd(in)))
@@ -215,7 +265,7 @@ var EntryPoints = []EntryPoint{
 		if c != nil {
 			s = fmt.Sprintf("%+v", *c)
 		}
-		return Result{s, e, t, c != nil}
+		return Result{s, e, t, c != nil, ""}
 	}},
 }
 
@@ -293,6 +343,9 @@ func checkTotal(scen string, in In, fast bool) (*mc.Violation, Result) {
 	if p {
 		return mc.V(scen, "returns-without-panic", in, "a value or an error", "panic: "+msg, "entry:"+in.Entry), res
 	}
+	if res.Inconsistent != "" {
+		return mc.V(scen, "outcome-depends-only-on-input", in, "the same outcome on a fresh receiver and on one that held another value", clip(res.Inconsistent), "entry:"+in.Entry), res
+	}
 	if res.Err && res.HasValue {
 		return mc.V(scen, "never-value-and-error", in, "nil / empty result together with an error", fmt.Sprintf("error %q AND value %s", res.ErrText, clip(res.Summary)), "entry:"+in.Entry), res
 	}
@@ -336,9 +389,9 @@ func alphabets(quick bool) []alpha {
 		typed = typedTokens[:typedQuick]
 	}
 	return []alpha{
-		{[]string{"version.Parse"}, []string{"0", "1", "a", ".", "+", "~", "-", ":", " ", "\t", "é", "٣"}, 5, 7, false},
-		{[]string{"dependency.ParseArch", "dependency.ParseArchitectures"}, []string{"a", "-", " ", "any", "all", "\n", "é", "!"}, 6, 8, false},
-		{[]string{"dependency.Parse"}, []string{"a", "b1", " ", ",", "|", "(", ")", "[", "]", "<", ">", "!", ":", "=", "$", "{", "}", "\n", "-", "é", ">=", "\t"}, 4, 5, false},
+		{[]string{"version.Parse", "version.Version.UnmarshalControl"}, []string{"0", "1", "a", ".", "+", "~", "-", ":", " ", "\t", "é", "٣"}, 5, 7, false},
+		{[]string{"dependency.ParseArch", "dependency.Arch.UnmarshalControl", "dependency.ParseArchitectures"}, []string{"a", "-", " ", "any", "all", "\n", "é", "!"}, 6, 8, false},
+		{[]string{"dependency.Parse", "dependency.Dependency.UnmarshalControl"}, []string{"a", "b1", " ", ",", "|", "(", ")", "[", "]", "<", ">", "!", ":", "=", "$", "{", "}", "\n", "-", "é", ">=", "\t"}, 4, 5, false},
 		{[]string{"control.ParagraphReader", "control.ParagraphReader.Next"}, []string{"A", ":", " ", "\n", "#", ".", "\r", "\t", "é"}, 6, 8, false},
 		{[]string{"control.ParseDsc", "control.ParseChanges", "control.ParseControl", "control.ParseBinaryIndex", "control.ParseSourceIndex", "deb.Control", "control.Unmarshal(user document)"}, typed, 4, 4, true},
 		{[]string{"changelog.Parse", "changelog.ParseOne"}, []string{"hello", " (", "1.0-1", ")", " unstable", ";", " urgency=low", "\n", "  * x", " -- ", "A <a@b>", "  ", "Mon, 02 Jan 2006 15:04:05 +0100", " ", "=", ",",
